@@ -36,9 +36,21 @@ def count_dags(n, maxbases=None):
     return c
 
 
-def build_ifaces(shape, prefix='I', module='vp_universe', attrs=None):
+_UNIVERSE = [0]
+
+
+def fresh_module_name():
+    """Interfaces compare and hash by (__name__, __module__): every universe gets its
+    own module name so that objects of different paths are never equal to each other
+    (equal-but-distinct interfaces share weak-dict slots in `dependents`)."""
+    _UNIVERSE[0] += 1
+    return 'vp_universe_%d' % _UNIVERSE[0]
+
+
+def build_ifaces(shape, prefix='I', module=None, attrs=None):
     from zope.interface import Interface
     from zope.interface.interface import InterfaceClass
+    module = module or fresh_module_name()
     out = []
     for i, bases in enumerate(shape):
         b = tuple(out[j] for j in bases) or (Interface,)
